@@ -1,6 +1,106 @@
-(* C12 - Protocol auto-detection classifies binary and ASCII panels correctly. *)
-From RP Require Import Lib.Base Lib.Varint Model.Net Model.Client Spec.NetSpec Proofs.NetProofs.
+(* C12 - Protocol auto-detection classifies binary and ASCII panels correctly.
+   Only statements; each closed by [exact] of a lemma from Proofs/NetProbeProofs.v.
+   Model: Model/Client.v (classify_client = connecttopanel.go:90-130, classify_detector =
+   rawpanelhelpers.go AutoDetectIfPanelEncodingIsBinary, probe_bytes = the probe both write),
+   environment Model/Net.v (probe_read = the single conn.Read under the 2000 ms deadline).
+   Spec: Spec/NetSpec.v (reply classes, c12_judge - also the oracle run on the implementation).
+   proto.Unmarshal does not occur: neither classification looks at its result.
+   PARTIAL only in the sense of DESIGN section 5: the timing clause is about the environment
+   model (a reply arriving at t < 2000 ms is what Read returns, later is a timeout); the Go
+   runtime, kernel and timers are exercised by the tie (harness/net), not modelled. *)
+From RP Require Import Lib.Base Lib.Varint Lib.Strings Model.Net Model.Client Spec.NetSpec Proofs.NetProbeProofs.
 
-Theorem c12_probe_bytes : probe_bytes = [2; 0; 0; 0; 8; 1].
-Proof. exact probe_bytes_eq. Qed.
-Print Assumptions c12_probe_bytes.
+(* "The probe written to a new connection is exactly one length-prefixed ping message":
+   the bytes both entry points write first are le32(2) ++ [field 1 = varint 1], they parse as
+   exactly one frame holding the ping, and negotiation adds nothing (binary) or one LF (ASCII). *)
+Theorem c12_probe_is_one_ping :
+  probe_bytes = lenprefix ping_msg /\ parse_frames 2 probe_bytes = ([ping_msg], []) /\
+  ping_msg = pb_varint_field 1 1 /\ negotiation_bytes true = probe_bytes /\ negotiation_bytes false = probe_bytes ++ [10].
+Proof. exact probe_is_one_ping. Qed.
+Print Assumptions c12_probe_is_one_ping.
+
+(* Any single well-formed frame (payload 1..996 bytes, so the acknowledge frame in particular),
+   whatever its payload: both classifiers say binary and write nothing further. *)
+Theorem c12_frame_binary : forall p, 0 < zlen p -> zlen p <= 996 ->
+  classify_client (PData (frame p)) = (true, []) /\
+  classify_detector (PData (frame p)) = true /\
+  negotiation_bytes true = probe_bytes.
+Proof. exact frame_binary. Qed.
+Print Assumptions c12_frame_binary.
+
+Example c12_ack_is_such_a_frame :
+  frame ack_payload = [2; 0; 0; 0; 8; 2] /\ classify_client (PData (frame ack_payload)) = (true, []) /\
+  classify_detector (PData (frame ack_payload)) = true.
+Proof. repeat split; reflexivity. Qed.
+
+(* Silence for the probe window (or a read error): ASCII for both, exactly one LF is written. *)
+Theorem c12_silence_ascii :
+  classify_client PErr = (false, []) /\ classify_detector PErr = false /\
+  negotiation_bytes false = probe_bytes ++ [10].
+Proof. exact silence_ascii. Qed.
+Print Assumptions c12_silence_ascii.
+
+(* THE MAIN STATEMENT, reconnecting client, for ALL replies (any bytes, up to the 1000-byte probe
+   buffer, any arrival time, or no reply at all): the model's flag, error text and written bytes
+   satisfy every clause of the spec predicate - acknowledge frame -> binary and nothing further;
+   silence, "RDY\n..." and "map=..." -> ASCII and exactly one bare LF; any other text that is
+   not one well-formed frame -> ASCII, with the text after "ErrorMsg=" up to the first LF handed
+   to onconnect. *)
+Theorem c12_client_meets_spec : forall reply,
+  (forall t r, reply = Some (t, r) -> bytes_ok r = true /\ zlen r <= 1000) ->
+  let bin := fst (classify_client (probe_result reply)) in
+  let err := snd (classify_client (probe_result reply)) in
+  c12_judge true (classify_reply reply) bin err (negotiation_bytes bin) = [].
+Proof. exact client_meets_spec. Qed.
+Print Assumptions c12_client_meets_spec.
+
+(* ... and the stand-alone detector, for all replies of any length. *)
+Theorem c12_detector_meets_spec : forall reply,
+  let bin := classify_detector (probe_result reply) in
+  c12_judge false (classify_reply reply) bin [] (negotiation_bytes bin) = [].
+Proof. exact detector_meets_spec. Qed.
+Print Assumptions c12_detector_meets_spec.
+
+(* The error message handed to onconnect *)
+Theorem c12_errormsg_extracted : forall e rest, forallb (fun c => negb (c =? 10)) e = true ->
+  errmsg_of (errormsg_prefix ++ e ++ 10 :: rest) = e /\ errmsg_of (errormsg_prefix ++ e) = e.
+Proof. exact errmsg_extracted. Qed.
+Print Assumptions c12_errormsg_extracted.
+
+(* The client is binary exactly when the reply is one frame whose header matches the byte count
+   (all header values, uint32 wrap-around of "length + 4" included). *)
+Theorem c12_client_binary_iff : forall r, bytes_ok r = true -> zlen r <= 1000 ->
+  fst (classify_client (PData r)) = ((4 <? zlen r) && (u32le r =? zlen r - 4)).
+Proof. exact client_binary_iff. Qed.
+Print Assumptions c12_client_binary_iff.
+
+(* "map=" / "RDY\n" can never be mistaken for a length header that matches a <= 1000-byte read *)
+Theorem c12_text_words_are_not_lengths : le32_dec map_word = 1030775149 /\ le32_dec rdy_word = 173622354.
+Proof. exact text_words_are_not_lengths. Qed.
+Print Assumptions c12_text_words_are_not_lengths.
+
+(* Timing (environment model): a reply at delay t < 2000 ms is what the probe read returns,
+   however long below 2 s it takes; at or after 2000 ms, or never, the read times out at 2000. *)
+Theorem c12_reply_in_window : forall t r rest, r <> [] -> t < 2000 -> zlen r <= 1000 ->
+  fst (probe_read (Seg t r :: rest)) = PData r.
+Proof. exact probe_read_in_window. Qed.
+Print Assumptions c12_reply_in_window.
+
+Theorem c12_reply_late : forall t r rest, r <> [] -> 2000 <= t ->
+  fst (probe_read (Seg t r :: rest)) = PErr /\ now (snd (probe_read (Seg t r :: rest))) = 2000.
+Proof. exact probe_read_late. Qed.
+Print Assumptions c12_reply_late.
+
+Theorem c12_no_reply : fst (probe_read []) = PErr /\ now (snd (probe_read [])) = 2000.
+Proof. exact probe_read_silent. Qed.
+Print Assumptions c12_no_reply.
+
+(* non-vacuity: concrete replies of each class *)
+Example c12_ex_rdy : classify_reply (Some (300, [82; 68; 89; 10; 109; 97; 112; 61; 49; 58; 50; 10])) = RcRdy /\
+  classify_client (PData [82; 68; 89; 10; 109; 97; 112; 61; 49; 58; 50; 10]) = (false, []).
+Proof. split; reflexivity. Qed.
+Example c12_ex_errormsg :
+  classify_client (PData (errormsg_prefix ++ [98; 117; 115; 121; 10; 82; 68; 89; 10])) = (false, [98; 117; 115; 121]).
+Proof. reflexivity. Qed.
+Example c12_ex_late_ack : probe_result (Some (2100, frame ack_payload)) = PErr.
+Proof. reflexivity. Qed.
